@@ -1210,3 +1210,18 @@ fire('c19-iter-raises-for-nonempty', 'C19', SD, 'SearchData.__iter__', '        
      why='found by mutation sampling')
 dtwin('c12-geterr-before-seterr', 'C12', 'seeded/twins/geterr-before-seterr-restored-in-finally.diff',
       why='the caller\'s error mode is read before the change and restored in finally')
+# feature additions (not refactorings): new functionality written against the pinned tree by independent authors.
+# Save/restore of the search state in three designs: no property is affected, every checker stays silent.
+for _f in sorted(_glob.glob(_os.path.join(_VERIF, 'seeded', 'features', 'persistence-design-*.diff'))):
+    dtwin('feature-' + _os.path.basename(_f).replace('.diff', ''), '*', _os.path.relpath(_f, _VERIF),
+          why='save/restore of the search state added as new entry points: the solving API is untouched')
+# SolverParameters.startPoint honoured by the seeding routine: the first trial is no longer at x = 1/2, which is what
+# C02 states - C02 must report it, every other checker stays silent
+_SP = 'seeded/features/startpoint-first-trial-at-nearest-grid-point.diff'
+dfire('feature-startpoint-c02', 'C02', _SP, 'R02.1',
+      why='the first trial is placed at the grid point nearest to startPoint instead of x = 1/2 (C02 as stated)')
+for _p in ('C03', 'C04', 'C05', 'C06', 'C07', 'C09', 'C11', 'C12', 'C13', 'C15', 'C16', 'C17', 'C18', 'C19', 'C20'):
+    dtwin(f'feature-startpoint-{_p.lower()}', _p, _SP,
+          why='only the position of the first trial changes: this property is unaffected')
+dtwin('c04-checkpoint-saves-value-and-z', 'C04', 'seeded/twins/checkpoint-saves-value-and-z-separately.diff',
+      why='the value and z of every trial are saved under their own keys and restored from them (R04.9 agrees)')
